@@ -80,7 +80,9 @@ class PanicGraph:
                 ty = ''
                 # operand type from the statements feeding it
                 out.append({'kind': 'assert ' + kind, 'where': where, 'sp': sp, 'exp': t.get('exp', False),
-                            'key': 'assert %s' % kind, 'ops': t.get('ops', []), 'ltypes': ltypes})
+                            'key': 'assert %s' % kind, 'ops': t.get('ops', []), 'ltypes': ltypes,
+                            'auto': self._const_discharge(mir, kind, t.get('ops', [])) or
+                            self._interval_discharge(mir, kind, t.get('ops', []), ltypes)})
             elif k == 'Call':
                 c = t.get('resolved') or t.get('callee')
                 if not c:
@@ -109,6 +111,148 @@ class PanicGraph:
                     out.append({'kind': hit, 'where': where, 'sp': sp, 'exp': t.get('exp', False),
                                 'key': hit, 'csp': t.get('csp')})
         return out
+
+    def _const(self, op):
+        """integer value of a MIR constant operand (`const 1000_i64`, `const convert::X`)"""
+        if not isinstance(op, str) or not op.startswith('const '):
+            return None
+        c = op[6:].strip()
+        m = re.fullmatch(r'(-?\d+)_[iu](?:8|16|32|64|128|size)', c)
+        if m:
+            return int(m.group(1))
+        if re.fullmatch(r'[\w:]+', c):
+            return self.F.const_value(c)
+        return None
+
+    # documented range of chrono::DateTime<Utc> (DateTime::MIN_UTC / MAX_UTC) in seconds
+    CHRONO_SECS = (-8_334_601_228_800, 8_210_266_876_799)
+    CALL_RANGES = {'timestamp': CHRONO_SECS, 'timestamp_subsec_nanos': (0, 1_999_999_999),
+                   'timestamp_subsec_micros': (0, 1_999_999), 'timestamp_subsec_millis': (0, 1_999)}
+    TY_RANGE = {'i64': (-2 ** 63, 2 ** 63 - 1), 'i32': (-2 ** 31, 2 ** 31 - 1), 'u32': (0, 2 ** 32 - 1),
+                'u64': (0, 2 ** 64 - 1), 'usize': (0, 2 ** 64 - 1), 'isize': (-2 ** 63, 2 ** 63 - 1)}
+
+    def _interval(self, mir, op, depth=0):
+        """(lo, hi) of an integer operand from its single definition, or None"""
+        if depth > 8 or not isinstance(op, str):
+            return None
+        v = self._const(op)
+        if v is not None:
+            return (v, v)
+        name = re.sub(r'^(move|copy) ', '', op)
+        m = re.fullmatch(r'\((_\d+)\.0: \w+\)', name)
+        if m:
+            name = m.group(1)       # value half of a checked-arithmetic pair
+        defs = []
+        for blk in mir['blocks']:
+            for st in blk.get('stmts', []):
+                if st.get('lhs') == name and 'rv' in st:
+                    defs.append(('rv', st['rv']))
+            t = blk['term']
+            if t.get('k') == 'Call' and t.get('dest') == name:
+                defs.append(('call', t))
+        if len(defs) != 1:
+            return None
+        kind, d = defs[0]
+        if kind == 'call':
+            c = strip_generics(d.get('callee') or '')
+            last = c.split('::')[-1]
+            if 'chrono' in c and last in self.CALL_RANGES:
+                return self.CALL_RANGES[last]
+            if last in ('rem_euclid',) and len(d.get('args', [])) == 2:
+                k_ = self._const(d['args'][1])
+                return (0, abs(k_) - 1) if k_ else None
+            return None
+        k = d.get('k')
+        if k == 'Use':
+            return self._interval(mir, d.get('a'), depth + 1)
+        if k == 'Cast' and d.get('ck') == 'IntToInt':
+            iv = self._interval(mir, d.get('a'), depth + 1)
+            r = self.TY_RANGE.get(d.get('ty'))
+            return iv if iv and r and r[0] <= iv[0] and iv[1] <= r[1] else None
+        if k == 'BinaryOp':
+            a, b = self._interval(mir, d.get('a'), depth + 1), self._interval(mir, d.get('b'), depth + 1)
+            op_ = d.get('op', '').replace('WithOverflow', '')
+            if a is None or b is None:
+                if op_ == 'Rem' and b is not None and b[0] == b[1] and b[0] != 0:
+                    return (-abs(b[0]) + 1, abs(b[0]) - 1)
+                return None
+            if op_ == 'Add':
+                return (a[0] + b[0], a[1] + b[1])
+            if op_ == 'Sub':
+                return (a[0] - b[1], a[1] - b[0])
+            if op_ == 'Mul':
+                ps = [x * y for x in a for y in b]
+                return (min(ps), max(ps))
+        return None
+
+    def _interval_discharge(self, mir, kind, ops, ltypes):
+        m = re.fullmatch(r'Overflow\((Add|Sub|Mul)\)', kind)
+        if not m or len(ops) != 2:
+            return None
+        a, b = self._interval(mir, ops[0]), self._interval(mir, ops[1])
+        if a is None or b is None:
+            return None
+        ty = None
+        for o in ops:
+            nm = re.sub(r'^(move|copy) ', '', o) if isinstance(o, str) else ''
+            ty = ty or ltypes.get(nm) or ltypes.get(nm.lstrip('_')) or \
+                (re.search(r'_(i64|i32|u32|u64|usize|isize)$', o or '') or [None, None])[1]
+        r = self.TY_RANGE.get(ty or '')
+        if r is None:
+            return None
+        if m.group(1) == 'Add':
+            res = (a[0] + b[0], a[1] + b[1])
+        elif m.group(1) == 'Sub':
+            res = (a[0] - b[1], a[1] - b[0])
+        else:
+            ps = [x * y for x in a for y in b]
+            res = (min(ps), max(ps))
+        if r[0] <= res[0] and res[1] <= r[1]:
+            return 'operands in [%d, %d] and [%d, %d]: the result fits %s' % (a[0], a[1], b[0], b[1], ty)
+        return None
+
+    def _const_discharge(self, mir, kind, ops):
+        """asserts that cannot fire because of the constants involved: division / remainder by
+        a named or literal constant other than 0 (and other than -1 for the overflow case);
+        a product of a Euclidean or truncating remainder by the constant K with a constant M
+        where K * M fits the type"""
+        if kind in ('DivisionByZero', 'RemainderByZero'):
+            # the tested operand is `Eq(divisor, 0)`: look the divisor up in the block
+            for b in mir['blocks']:
+                t = b['term']
+                if t.get('k') == 'Assert' and t.get('assert') == kind and t.get('ops') == ops:
+                    for st in b.get('stmts', []):
+                        rv = st.get('rv', {})
+                        if rv.get('k') == 'BinaryOp' and rv.get('op') == 'Eq' and rv.get('b', '').startswith('const 0'):
+                            v = self._const(rv.get('a'))
+                            if v not in (None, 0):
+                                return 'the divisor is the constant %s' % v
+            return None
+        if kind in ('Overflow(Div)', 'Overflow(Rem)') and len(ops) == 2:
+            v = self._const(ops[1])
+            if v not in (None, 0, -1):
+                return 'the divisor is the constant %s (only MIN / -1 overflows)' % v
+            return None
+        if kind == 'Overflow(Mul)' and len(ops) == 2:
+            for a, b in ((ops[0], ops[1]), (ops[1], ops[0])):
+                m_ = self._const(b)
+                loc_ = re.sub(r'^(move|copy) ', '', a) if isinstance(a, str) else None
+                if m_ is None or loc_ is None:
+                    continue
+                for blk in mir['blocks']:
+                    t = blk['term']
+                    if t.get('k') == 'Call' and t.get('dest') == loc_ and \
+                            (t.get('callee') or '').endswith('::rem_euclid') and len(t.get('args', [])) == 2:
+                        k_ = self._const(t['args'][1])
+                        if k_ and abs(k_ * m_) < 2 ** 31:
+                            return 'a remainder below %d times the constant %d' % (abs(k_), m_)
+                    for st in blk.get('stmts', []):
+                        rv = st.get('rv', {})
+                        if st.get('lhs') == loc_ and rv.get('k') == 'BinaryOp' and rv.get('op') == 'Rem':
+                            k_ = self._const(rv.get('b'))
+                            if k_ and abs(k_ * m_) < 2 ** 31:
+                                return 'a remainder below %d times the constant %d' % (abs(k_), m_)
+        return None
 
     # -- edges -----------------------------------------------------------
     def callees(self, fn):
@@ -200,8 +344,8 @@ def check_entry(run, G, entry, audited, prop_rule='PANIC.entry'):
     for q, fn in sorted(seen.items()):
         for s in G.sites(fn):
             n += 1
-            reason = None
-            for fsub, ksub, why in audited:
+            reason = s.get('auto')
+            for fsub, ksub, why in ([] if reason else audited):
                 if fsub in q and ksub in s['key']:
                     reason = why
                     break
